@@ -23,7 +23,7 @@ META = {
     "assumptions": ["REAL mode with algebraised trigonometry", "reference sampling densities g_i = dG_i/dx_i are obtained by differentiating the reference CDFs written in this harness (sin^2 uniform cone angle, uniform azimuths, density proportional to r_d^2 - R^2 - L^2 in the path length), not the code",
                     "generalisation cuts: Lmin, Lmax, L carry exactly the facts proved by C02's init-lemma and cubic jobs (re-proved here)"],
 }
-LEDGER = {"quick": 110, "thorough": 120}
+LEDGER = 155
 
 
 def norm_run():
@@ -241,6 +241,10 @@ def replay(v):
         bad = f"L = {L} outside [{Lmin}, {Lmax}]"
     if bad:
         return {"reproduced": True, "key": "diffuse estimator: " + ob.split("/", 1)[-1][:70], "detail": bad}
+    if "kept exactly" in ob or "emergence angle ==" in ob or "cos(theta_TrN)" in ob:
+        r = P2._replay_mask()
+        if r:
+            return {"reproduced": True, "key": "throw: validity mask differs from (upward-going and beta < 42 deg)", "detail": r}
     return {"reproduced": False, "key": None, "detail": "real code satisfies the pointwise identity at the model point"}
 
 
